@@ -8,6 +8,7 @@ for s in "$@"; do
   git -C /repo apply /verif/seeded/$s/patch.diff || { echo "$s APPLY-FAILED"; continue; }
   ./check $pid --tier quick > /tmp/seeded_$s.out 2>&1; rc=$?
   git -C /repo checkout -- .
+  git -C /verif checkout -- lean/Mitx/Generated 2>/dev/null
   cp /tmp/evidence_$pid.bak evidence/$pid.json 2>/dev/null
   echo "$s check=$pid rc=$rc $(grep '^VIOLATION' /tmp/seeded_$s.out | head -1)"
 done
